@@ -83,5 +83,21 @@ def h8(a: int, b: int, c: int, d: int, e: int, f: int, g: int, h: int) -> bool:
     return _body(a, b, c, d, e, f, g, h)
 
 
-BY_ARITY = {1: h1, 2: h2, 3: h3, 4: h4, 5: h5, 6: h6, 7: h7, 8: h8}
-ARG_NAMES = ["a", "b", "c", "d", "e", "f", "g", "h"]
+def h9(a: int, b: int, c: int, d: int, e: int, f: int, g: int, h: int, i: int) -> bool:
+    """
+    pre: _pre(a, b, c, d, e, f, g, h, i)
+    post: _
+    """
+    return _body(a, b, c, d, e, f, g, h, i)
+
+
+def h10(a: int, b: int, c: int, d: int, e: int, f: int, g: int, h: int, i: int, j: int) -> bool:
+    """
+    pre: _pre(a, b, c, d, e, f, g, h, i, j)
+    post: _
+    """
+    return _body(a, b, c, d, e, f, g, h, i, j)
+
+
+BY_ARITY = {1: h1, 2: h2, 3: h3, 4: h4, 5: h5, 6: h6, 7: h7, 8: h8, 9: h9, 10: h10}
+ARG_NAMES = ["a", "b", "c", "d", "e", "f", "g", "h", "i", "j"]
